@@ -255,6 +255,10 @@ def eventV2_eventV2_populateEventID : List String := [
   "return nil"
 ]
 
+def eventV2_type_eventV2 : List String := [
+  "type eventV2 struct { eventV1 PrevEvents []string `json:\"prev_events\"` AuthEvents []string `json:\"auth_events\"` }"
+]
+
 def fclient_client_Client_CreateMediaDownloadRequest : List String := [
   "func func(ctx context.Context, matrixServer spec.ServerName, mediaID string) (*http.Response, error)",
   "requestURL := \"matrix://\" + string(matrixServer) + \"/_matrix/media/v3/download/\" + string(matrixServer) + \"/\" + mediaID + \"?allow_remote=false\"",
@@ -609,6 +613,30 @@ def fclient_client_destinationTripper_wellKnownTransport : List String := [
   "return f.wellKnown"
 ]
 
+def fclient_client_type_Client : List String := [
+  "type Client struct { client http.Client userAgent string }"
+]
+
+def fclient_client_type_ClientOption : List String := [
+  "type ClientOption func(*clientOptions)"
+]
+
+def fclient_client_type_UserInfo : List String := [
+  "type UserInfo struct { Sub string `json:\"sub\"` }"
+]
+
+def fclient_client_type_clientOptions : List String := [
+  "type clientOptions struct { transport http.RoundTripper dnsCache *DNSCache timeout time.Duration skipVerify bool keepAlives bool wellKnownSRV bool userAgent string allowNetworks []string denyNetworks []string }"
+]
+
+def fclient_client_type_destinationTripper : List String := [
+  "type destinationTripper struct { transports map[string]*destinationTripperTransport transportsMutex sync.Mutex skipVerify bool resolutionCache sync.Map dnsCache *DNSCache keepAlives bool wellKnownSRV bool dialer *net.Dialer wellKnown *http.Transport }"
+]
+
+def fclient_client_type_destinationTripperTransport : List String := [
+  "type destinationTripperTransport struct { *http.Transport lastUsed atomic.Value }"
+]
+
 def fclient_dnscache_DNSCache_DialContext : List String := [
   "func func(ctx context.Context, network, address string) (net.Conn, error)",
   "return c.dialContext(ctx, &c.dialer, address)"
@@ -691,6 +719,22 @@ def fclient_dnscache__NewDNSCache : List String := [
 def fclient_dnscache__chainControls : List String := [
   "func func(controls ...controlFunc) controlFunc",
   "return func(ctx context.Context, network, address string, conn syscall.RawConn) error { for _, control := range controls { if control == nil { continue } if err := control(ctx, network, address, conn); err != nil { return err } } return nil }"
+]
+
+def fclient_dnscache_type_DNSCache : List String := [
+  "type DNSCache struct { resolver netResolver mutex sync.Mutex size int duration time.Duration entries map[string]*dnsCacheEntry dialer net.Dialer }"
+]
+
+def fclient_dnscache_type_controlFunc : List String := [
+  "type controlFunc func(ctx context.Context, network, address string, conn syscall.RawConn) error"
+]
+
+def fclient_dnscache_type_dnsCacheEntry : List String := [
+  "type dnsCacheEntry struct { addrs []net.IPAddr expires time.Time }"
+]
+
+def fclient_dnscache_type_netResolver : List String := [
+  "type netResolver interface { LookupIPAddr(context.Context, string) ([]net.IPAddr, error) }"
 ]
 
 def keyring_DirectKeyFetcher_FetchKeys : List String := [
@@ -1044,6 +1088,66 @@ def keyring__mapServerKeysToPublicKeyLookupResult : List String := [
   "}"
 ]
 
-def functions : List String := ["eventV2.go:.CheckFields", "eventV2.go:.newEventFromTrustedJSONV2", "eventV2.go:.newEventFromTrustedJSONWithEventIDV2", "eventV2.go:.newEventFromUntrustedJSONV2", "eventV2.go:eventV2.AuthEventIDs", "eventV2.go:eventV2.EventID", "eventV2.go:eventV2.MarshalJSON", "eventV2.go:eventV2.PrevEventIDs", "eventV2.go:eventV2.Redact", "eventV2.go:eventV2.SenderID", "eventV2.go:eventV2.SetUnsigned", "eventV2.go:eventV2.Sign", "eventV2.go:eventV2.populateEventID", "fclient/client.go:Client.CreateMediaDownloadRequest", "fclient/client.go:Client.DoHTTPRequest", "fclient/client.go:Client.DoRequestAndParseResponse", "fclient/client.go:Client.GetServerKeys", "fclient/client.go:Client.GetVersion", "fclient/client.go:Client.LookupServerKeys", "fclient/client.go:Client.LookupUserInfo", "fclient/client.go:Client.SetUserAgent", "fclient/client.go:.NewClient", "fclient/client.go:.WithAllowDenyNetworks", "fclient/client.go:.WithDNSCache", "fclient/client.go:.WithKeepAlives", "fclient/client.go:.WithSkipVerify", "fclient/client.go:.WithTimeout", "fclient/client.go:.WithTransport", "fclient/client.go:.WithUserAgent", "fclient/client.go:.WithWellKnownSRVLookups", "fclient/client.go:.allowDenyNetworksControl", "fclient/client.go:.inRange", "fclient/client.go:.isAllowed", "fclient/client.go:.makeHTTPSURL", "fclient/client.go:.newDestinationTripper", "fclient/client.go:.newDestinationTripperDialer", "fclient/client.go:destinationTripper.RoundTrip", "fclient/client.go:destinationTripper.getTransport", "fclient/client.go:destinationTripper.reaper", "fclient/client.go:destinationTripper.wellKnownTransport", "fclient/dnscache.go:DNSCache.DialContext", "fclient/dnscache.go:DNSCache.dialContext", "fclient/dnscache.go:DNSCache.dialContextVia", "fclient/dnscache.go:DNSCache.lookup", "fclient/dnscache.go:.NewDNSCache", "fclient/dnscache.go:.chainControls", "keyring.go:DirectKeyFetcher.FetchKeys", "keyring.go:DirectKeyFetcher.FetcherName", "keyring.go:DirectKeyFetcher.fetchKeysForServer", "keyring.go:DirectKeyFetcher.fetchNotaryKeysForServer", "keyring.go:JSONVerifierSelf.VerifyJSONs", "keyring.go:KeyRing.VerifyJSONs", "keyring.go:KeyRing.checkUsingKeys", "keyring.go:KeyRing.isAlgorithmSupported", "keyring.go:KeyRing.publicKeyRequests", "keyring.go:PerspectiveKeyFetcher.FetchKeys", "keyring.go:PerspectiveKeyFetcher.FetcherName", "keyring.go:PublicKeyLookupRequest.MarshalText", "keyring.go:PublicKeyLookupRequest.UnmarshalText", "keyring.go:PublicKeyLookupResult.WasValidAt", "keyring.go:.NoStrictValidityCheck", "keyring.go:.StrictValiditySignatureCheck", "keyring.go:.mapServerKeysToPublicKeyLookupResult"]
+def keyring_type_DirectKeyFetcher : List String := [
+  "type DirectKeyFetcher struct { Client KeyClient IsLocalServerName func(server spec.ServerName) bool LocalPublicKey spec.Base64Bytes }"
+]
+
+def keyring_type_JSONVerifier : List String := [
+  "type JSONVerifier interface { VerifyJSONs(ctx context.Context, requests []VerifyJSONRequest) ([]VerifyJSONResult, error) }"
+]
+
+def keyring_type_JSONVerifierSelf : List String := [
+  "type JSONVerifierSelf struct{}"
+]
+
+def keyring_type_KeyClient : List String := [
+  "type KeyClient interface { GetServerKeys(ctx context.Context, matrixServer spec.ServerName) (ServerKeys, error) LookupServerKeys(ctx context.Context, matrixServer spec.ServerName, keyRequests map[PublicKeyLookupRequest]spec.Timestamp) ([]ServerKeys, error) }"
+]
+
+def keyring_type_KeyDatabase : List String := [
+  "type KeyDatabase interface { KeyFetcher StoreKeys(ctx context.Context, results map[PublicKeyLookupRequest]PublicKeyLookupResult) error }"
+]
+
+def keyring_type_KeyFetcher : List String := [
+  "type KeyFetcher interface { FetchKeys(ctx context.Context, requests map[PublicKeyLookupRequest]spec.Timestamp) (map[PublicKeyLookupRequest]PublicKeyLookupResult, error) FetcherName() string }"
+]
+
+def keyring_type_KeyRing : List String := [
+  "type KeyRing struct { KeyFetchers []KeyFetcher KeyDatabase KeyDatabase }"
+]
+
+def keyring_type_PerspectiveKeyFetcher : List String := [
+  "type PerspectiveKeyFetcher struct { PerspectiveServerName spec.ServerName PerspectiveServerKeys map[KeyID]ed25519.PublicKey Client KeyClient }"
+]
+
+def keyring_type_PublicKeyLookupRequest : List String := [
+  "type PublicKeyLookupRequest struct { ServerName spec.ServerName `json:\"server_name\"` KeyID KeyID `json:\"key_id\"` }"
+]
+
+def keyring_type_PublicKeyLookupResult : List String := [
+  "type PublicKeyLookupResult struct { VerifyKey ExpiredTS spec.Timestamp `json:\"expired_ts\"` ValidUntilTS spec.Timestamp `json:\"valid_until_ts\"` }"
+]
+
+def keyring_type_PublicKeyNotaryLookupRequest : List String := [
+  "type PublicKeyNotaryLookupRequest struct { ServerKeys map[spec.ServerName]map[KeyID]PublicKeyNotaryQueryCriteria `json:\"server_keys\"` }"
+]
+
+def keyring_type_PublicKeyNotaryQueryCriteria : List String := [
+  "type PublicKeyNotaryQueryCriteria struct { MinimumValidUntilTS spec.Timestamp `json:\"minimum_valid_until_ts\"` }"
+]
+
+def keyring_type_SignatureValidityCheckFunc : List String := [
+  "type SignatureValidityCheckFunc func(atTS, validUntil spec.Timestamp) bool"
+]
+
+def keyring_type_VerifyJSONRequest : List String := [
+  "type VerifyJSONRequest struct { ServerName spec.ServerName AtTS spec.Timestamp Message []byte ValidityCheckingFunc SignatureValidityCheckFunc }"
+]
+
+def keyring_type_VerifyJSONResult : List String := [
+  "type VerifyJSONResult struct{ Error error }"
+]
+
+def functions : List String := ["eventV2.go:.CheckFields", "eventV2.go:.newEventFromTrustedJSONV2", "eventV2.go:.newEventFromTrustedJSONWithEventIDV2", "eventV2.go:.newEventFromUntrustedJSONV2", "eventV2.go:eventV2.AuthEventIDs", "eventV2.go:eventV2.EventID", "eventV2.go:eventV2.MarshalJSON", "eventV2.go:eventV2.PrevEventIDs", "eventV2.go:eventV2.Redact", "eventV2.go:eventV2.SenderID", "eventV2.go:eventV2.SetUnsigned", "eventV2.go:eventV2.Sign", "eventV2.go:eventV2.populateEventID", "eventV2.go:type eventV2", "fclient/client.go:Client.CreateMediaDownloadRequest", "fclient/client.go:Client.DoHTTPRequest", "fclient/client.go:Client.DoRequestAndParseResponse", "fclient/client.go:Client.GetServerKeys", "fclient/client.go:Client.GetVersion", "fclient/client.go:Client.LookupServerKeys", "fclient/client.go:Client.LookupUserInfo", "fclient/client.go:Client.SetUserAgent", "fclient/client.go:.NewClient", "fclient/client.go:.WithAllowDenyNetworks", "fclient/client.go:.WithDNSCache", "fclient/client.go:.WithKeepAlives", "fclient/client.go:.WithSkipVerify", "fclient/client.go:.WithTimeout", "fclient/client.go:.WithTransport", "fclient/client.go:.WithUserAgent", "fclient/client.go:.WithWellKnownSRVLookups", "fclient/client.go:.allowDenyNetworksControl", "fclient/client.go:.inRange", "fclient/client.go:.isAllowed", "fclient/client.go:.makeHTTPSURL", "fclient/client.go:.newDestinationTripper", "fclient/client.go:.newDestinationTripperDialer", "fclient/client.go:destinationTripper.RoundTrip", "fclient/client.go:destinationTripper.getTransport", "fclient/client.go:destinationTripper.reaper", "fclient/client.go:destinationTripper.wellKnownTransport", "fclient/client.go:type Client", "fclient/client.go:type ClientOption", "fclient/client.go:type UserInfo", "fclient/client.go:type clientOptions", "fclient/client.go:type destinationTripper", "fclient/client.go:type destinationTripperTransport", "fclient/dnscache.go:DNSCache.DialContext", "fclient/dnscache.go:DNSCache.dialContext", "fclient/dnscache.go:DNSCache.dialContextVia", "fclient/dnscache.go:DNSCache.lookup", "fclient/dnscache.go:.NewDNSCache", "fclient/dnscache.go:.chainControls", "fclient/dnscache.go:type DNSCache", "fclient/dnscache.go:type controlFunc", "fclient/dnscache.go:type dnsCacheEntry", "fclient/dnscache.go:type netResolver", "keyring.go:DirectKeyFetcher.FetchKeys", "keyring.go:DirectKeyFetcher.FetcherName", "keyring.go:DirectKeyFetcher.fetchKeysForServer", "keyring.go:DirectKeyFetcher.fetchNotaryKeysForServer", "keyring.go:JSONVerifierSelf.VerifyJSONs", "keyring.go:KeyRing.VerifyJSONs", "keyring.go:KeyRing.checkUsingKeys", "keyring.go:KeyRing.isAlgorithmSupported", "keyring.go:KeyRing.publicKeyRequests", "keyring.go:PerspectiveKeyFetcher.FetchKeys", "keyring.go:PerspectiveKeyFetcher.FetcherName", "keyring.go:PublicKeyLookupRequest.MarshalText", "keyring.go:PublicKeyLookupRequest.UnmarshalText", "keyring.go:PublicKeyLookupResult.WasValidAt", "keyring.go:.NoStrictValidityCheck", "keyring.go:.StrictValiditySignatureCheck", "keyring.go:.mapServerKeysToPublicKeyLookupResult", "keyring.go:type DirectKeyFetcher", "keyring.go:type JSONVerifier", "keyring.go:type JSONVerifierSelf", "keyring.go:type KeyClient", "keyring.go:type KeyDatabase", "keyring.go:type KeyFetcher", "keyring.go:type KeyRing", "keyring.go:type PerspectiveKeyFetcher", "keyring.go:type PublicKeyLookupRequest", "keyring.go:type PublicKeyLookupResult", "keyring.go:type PublicKeyNotaryLookupRequest", "keyring.go:type PublicKeyNotaryQueryCriteria", "keyring.go:type SignatureValidityCheckFunc", "keyring.go:type VerifyJSONRequest", "keyring.go:type VerifyJSONResult"]
 
 end VPins.C19
